@@ -3,9 +3,10 @@ import struct as _struct
 
 WIDTH_HOT = [1, 2, 3, 7, 8, 9, 15, 16, 17, 31, 32, 33, 63, 64]
 ENUM_MAX_HOT = [0, 1, 2, 3, 4, 5, 7, 8, 15, 16, 255, 256, 1000, 65535, 65536]
-# maxima where float log2 is at its limits; only powers of two and their successors, which the code's own float formula
-# still gets right (2^k - 1 for k >= 49 is the documented over-allocation, DESIGN section 9 item 27)
-ENUM_MAX_BIG = [2 ** 31, 2 ** 32, 2 ** 32 + 1, 2 ** 49, 2 ** 49 + 1, 2 ** 52, 2 ** 53 + 1, 2 ** 62, 2 ** 62 + 1, 2 ** 63]
+# maxima where a float log2 is at its limits: powers of two, their successors and (since fix f704145, which computes the
+# width from the integer bit length) their predecessors 2^k - 1 for k >= 49, which the float formula over-allocated
+ENUM_MAX_BIG = [2 ** 31, 2 ** 32, 2 ** 32 + 1, 2 ** 49 - 1, 2 ** 49, 2 ** 49 + 1, 2 ** 52, 2 ** 53 - 1, 2 ** 53 + 1, 2 ** 62 - 1, 2 ** 62,
+                2 ** 62 + 1, 2 ** 63 - 1, 2 ** 63, 2 ** 64 - 1]
 
 
 def width(rng, hi=64):
